@@ -16,8 +16,8 @@ K = {17: "minus", 18: "minusEmph", 19: "minusNon", 20: "plus", 21: "plusEmph", 2
      44: "mergeTheirs"}
 LABELS = {"added": "LBLADD", "removed": "LBLDEL", "renamed": "LBLREN", "copied": "LBLCPY", "modified": "LBLMOD"}
 
-RS_ARGS = [
-    "--no-gitconfig", "--syntax-theme", "none", "--width", "200",
+RS_BASE = [
+    "--no-gitconfig", "--syntax-theme", "none",
     "--minus-style", "17", "--minus-emph-style", "18", "--minus-non-emph-style", "19",
     "--plus-style", "20", "--plus-emph-style", "21", "--plus-non-emph-style", "22",
     "--zero-style", "23",
@@ -33,7 +33,15 @@ RS_ARGS = [
     "--file-modified-label", LABELS["modified"],
     "--merge-conflict-ours-diff-header-style", "43", "--merge-conflict-ours-diff-header-decoration-style", "none",
     "--merge-conflict-theirs-diff-header-style", "44", "--merge-conflict-theirs-diff-header-decoration-style", "none",
+    "--inline-hint-style", "42",
 ]
+
+RS_ARGS = RS_BASE + ["--width", "200"]
+
+
+def rs_args(width):
+    return RS_BASE + ["--width", str(width)]
+
 
 FILES = {1: "alphaZ1Z.rs", 2: "betaZ2Z.rs", 3: "gammaZ3Z.rs"}
 _FILE_RE = re.compile(r"(?:alpha|beta|gamma)Z([123])Z\.rs")
@@ -198,10 +206,10 @@ def line_events(hist, texts, intern, tabs=8):
 _BOX = set("─━│┃┌┐└┘├┤┬┴┼╌═║ ")
 
 
-def span_kind(fg, bg):
+def span_kind(fg, bg, attrs=frozenset()):
     if len(fg) == 1 and fg[0] in K:
         return K[fg[0]]
-    if fg == () and bg == ():
+    if fg == () and bg == () and not attrs:
         return "plain"
     return "styled"
 
@@ -211,7 +219,7 @@ def parse_row(row: bytes, intern, skin=None):
     toks = lexer.tokens(row)
     cs, pen = lexer.cells(toks)
     sp = lexer.spans(cs)
-    kinds = [span_kind(s[1], s[2]) for s in sp]
+    kinds = [span_kind(s[1], s[2], s[3]) for s in sp]
     text = "".join(s[0] for s in sp)
     code = "".join(s[0] for s, kd in zip(sp, kinds) if kd not in LN_KINDS)
     kset = set(kinds)
@@ -341,3 +349,87 @@ def colourise(hist, texts, variant=0):
         else:
             out.append(t)
     return out
+
+
+# ---- rows with line-number gutters / side-by-side panels (C05, C07) ---------------------------------
+
+_TOK_RE = re.compile(r"tokZ(\d+)Z")
+
+
+def kinded_cells(row: bytes):
+    """[(grapheme, kind, width, column)] for one row under the reserved styles."""
+    cs, pen = lexer.cells(lexer.tokens(row))
+    out = []
+    col = 0
+    for g, fg, bg, at, lk in cs:
+        w = lexer.gwidth(g)
+        out.append((g, span_kind(fg, bg, at), w, col))
+        col += w
+    return out, col
+
+
+def _num(cells, kinds):
+    s = "".join(g for g, kd, w, c in cells if kd in kinds)
+    m = re.search(r"\d+", s)
+    return int(m.group()) if m else 0
+
+
+def _tok(cells):
+    s = "".join(g for g, kd, w, c in cells if kd not in LN_KINDS)
+    m = _TOK_RE.search(s)
+    return int(m.group(1)) if m else 0
+
+
+def parse_unified_numbers(row: bytes):
+    cells, width = kinded_cells(row)
+    kinds = {kd for g, kd, w, c in cells}
+    if not kinds & LN_KINDS:
+        return None
+    # zero lines paint both numbers with the zero style: first field = old, second = new
+    zs = re.findall(r"\d+", "".join(g if kd == "lnZero" else " " for g, kd, w, c in cells))
+    nm = _num(cells, {"lnMinus"})
+    np_ = _num(cells, {"lnPlus"})
+    if zs:
+        if len(zs) >= 2:
+            nm, np_ = int(zs[0]), int(zs[1])
+        else:
+            nm = int(zs[0])
+    return {"k": _tok(cells), "nm": nm, "np": np_}
+
+
+def parse_sbs_row(row: bytes):
+    """Side-by-side row with line numbers on: split at the first right-gutter cell."""
+    cells, width = kinded_cells(row)
+    split = next((i for i, c in enumerate(cells) if c[1] == "lnRight"), None)
+    if split is None:
+        return None
+    left, right = cells[:split], cells[split:]
+
+    def text(cs):
+        return "".join(g for g, kd, w, c in cs if kd not in LN_KINDS)
+
+    def panel(cs):
+        """code text of a panel without padding and wrap machinery: (text, wrapped?, truncated?)"""
+        t = "".join(g for g, kd, w, c in cs if kd not in LN_KINDS and kd != "plain")
+        m = re.match(r"^ *…", t)
+        ralign = bool(m)
+        if m:
+            t = t[m.end():]
+        wrapped = truncated = False
+        if t.endswith("↵") or t.endswith("↴"):
+            wrapped, t = True, t[:-1]
+        elif t.endswith("→"):
+            truncated, t = True, t[:-1]
+        return t, wrapped, truncated, ralign
+    lp, rp = panel(left), panel(right)
+
+    def kset(cs):
+        return sorted({kd for g, kd, w, c in cs if kd not in LN_KINDS and kd != "plain"})
+    return {
+        "kl": _tok(left), "nm": _num(left, {"lnMinus", "lnZero"}),
+        "kr": _tok(right), "np": _num(right, {"lnPlus", "lnZero"}),
+        "col": right[0][3], "width": width,
+        "lt": text(left), "rt": text(right), "lk": kset(left), "rk": kset(right),
+        "lw": sum(w for g, kd, w, c in left), "rw": sum(w for g, kd, w, c in right),
+        "lp": lp, "rp": rp,
+    }
